@@ -212,6 +212,27 @@ theorem buildTree_good (T : Nat) : ∀ (s : TreeSpec K) (t : ZTree K), buildTree
     exact ⟨trivial, rfl⟩
 
 omit hE in
+theorem allUnique_iff (l : List K) : allUnique FK l = true ↔ l.Nodup := by
+  induction l with
+  | nil => simp [allUnique]
+  | cons x xs ih =>
+    simp only [allUnique, Bool.and_eq_true, Bool.not_eq_true', List.nodup_cons, ih]
+    constructor
+    · rintro ⟨h1, h2⟩
+      refine ⟨fun hx => ?_, h2⟩
+      have : xs.any ((FieldOps.ofField K root).beq x) = true := by
+        rw [List.any_eq_true]; exact ⟨x, hx, by simp⟩
+      rw [this] at h1; exact absurd h1 (by simp)
+    · rintro ⟨h1, h2⟩
+      refine ⟨?_, h2⟩
+      rw [Bool.eq_false_iff]
+      intro hany
+      rw [List.any_eq_true] at hany
+      obtain ⟨y, hy, hxy⟩ := hany
+      rw [FieldOps.ofField_beq] at hxy
+      subst hxy; exact h1 hy
+
+omit hE in
 theorem buildTree_total (T : Nat) (hT : 2 ≤ T) : ∀ (s : TreeSpec K), (buildTree FK E T s).isSome := by
   intro s
   induction s with
